@@ -65,6 +65,12 @@ Fn(name) ==
     [] name = "mod2" -> Fun("K2", <<"x">>, Op("mod", X, Lit(2)))
     [] name = "const" -> Fun("K3", <<"x">>, Lit(0))
     [] name = "modk" -> Let("k", Lit(3), Fun("K4", <<"x">>, Op("mod", X, Var("k"))))
+    (* keys that tell apart items that are EQUAL AS PYTHON VALUES but different XPath items *)
+    [] name = "str" -> Fun("M1", <<"x">>, SCall("S4", "string", <<X>>))                  \* string($x)
+    [] name = "isint" -> Fun("M2", <<"x">>, If(InstOf(X, "xs:integer"), Lit(1), Lit(0)))
+    [] name = "isbool" -> Fun("M3", <<"x">>, InstOf(X, "xs:boolean"))                    \* a boolean key
+    [] name = "tag" -> Fun("M4", <<"x">>, If(InstOf(X, "xs:integer"), Lit(1), If(InstOf(X, "xs:decimal"), Lit(2),
+                                             If(InstOf(X, "xs:double"), Lit(3), Lit(4)))))
     (* other arities, for fn:apply *)
     [] name = "k7" -> Fun("A0", <<>>, Lit(7))
     [] name = "f3" -> Fun("A3", <<"a", "b", "c">>, Op("+", Op("*", Op("+", Op("*", A, Lit(10)), Bv), Lit(10)), Var("c")))
@@ -87,7 +93,7 @@ AllNames == Unary \cup Preds \cup Binary \cup PairOnly \cup Keys \cup {"k7", "f3
 (* the function items of the catalog, evaluated once (a constant: TLC caches it) *)
 Names == {"dbl", "addk", "dup", "drop", "abs", "nestfold", "nesteach", "p7", "powp", "odd", "ltk", "any", "ltp",
           "sub", "shift", "snoc", "cons", "subk", "pow", "concat2", "negate", "mod2", "const", "modk",
-          "k7", "f3", "concat3"}
+          "k7", "f3", "concat3", "str", "isint", "isbool", "tag"}
 FV == [name \in Names |-> Eval(Fn(name), EmptyEnv)[1]]
 FnVal(name) == FV[name]
 Ints(ns) == [j \in 1..Len(ns) |-> I(ns[j])]
@@ -169,7 +175,7 @@ LawPair ==
     /\ (m = 0 => ForEachPair(acc, Ints(o), FnVal(f)) = <<>>)
 (* sort returns THE stable ordered permutation: the unique permutation p of the positions with keys
    non-decreasing and equal keys in their original order *)
-KeyNum(x, key) == NumOf(KeyOf(x, IF key = "none" THEN NoKey ELSE FnVal(key))[1])
+KeyNum(x, key) == KeyVal(KeyOf(x, IF key = "none" THEN NoKey ELSE FnVal(key)))
 IsSortPerm(p, key) ==
   \A i, j \in 1..Len(acc) : i < j =>
      \/ KeyNum(acc[p[i]], key) < KeyNum(acc[p[j]], key)
@@ -180,6 +186,34 @@ LawSort ==
         r == SortBy(acc, IF key = "none" THEN NoKey ELSE FnVal(key)) IN
     /\ Cardinality(ps) = 1
     /\ \A p \in ps : r = [i \in 1..Len(acc) |-> acc[p[i]]]
+---------------------------------------------------------------------------
+(* SECOND MACHINE (SpecMixed): fn:sort with a key function over items that are equal as numbers /  *)
+(* as Python values but are DIFFERENT XPath items: 1, 1.0, 1e0, true(), 0, false().  The key of    *)
+(* every item is the key function applied to THAT item (F&O 3.1 16.1: "the sort key of each item   *)
+(* is computed by applying $key to the item"); same stability law.  Keys: the string value, two    *)
+(* type tags, a boolean, a constant.                                                               *)
+MixedItems == {I(0), I(1), C(1), D(1), B(TRUE), B(FALSE)}
+MixedKeys == {"str", "isint", "isbool", "tag", "const"}
+InitMixed == acc \in UNION {[1..k -> MixedItems] : k \in 0..MaxLen}
+SortMixedA(key) == /\ Deeper /\ key \in MixedKeys
+                   /\ acc' = SortBy(acc, FnVal(key))
+NextMixed == \E key \in Names : SortMixedA(key)
+SpecMixed == InitMixed /\ [][NextMixed]_vars
+LawSortMixed ==
+  Len(acc) <= 4 => \A key \in MixedKeys :
+    LET ps == {p \in Permutations(1..Len(acc)) : IsSortPerm(p, key)}
+        r == SortBy(acc, FnVal(key)) IN
+    /\ Cardinality(ps) = 1
+    /\ \A p \in ps : r = [i \in 1..Len(acc) |-> acc[p[i]]]
+    /\ \A i \in 1..(Len(r) - 1) : KeyVal(KeyOf(r[i], FnVal(key))) <= KeyVal(KeyOf(r[i + 1], FnVal(key)))
+(* the keys really separate the items: string() maps the six items onto "0", "1", "false", "true" *)
+LawMixedKeys ==
+  /\ Ap1("str", C(1)) = <<S("1")>> /\ Ap1("str", D(1)) = <<S("1")>> /\ Ap1("str", B(TRUE)) = <<S("true")>>
+  /\ Ap1("isint", I(1)) = <<I(1)>> /\ Ap1("isint", C(1)) = <<I(0)>> /\ Ap1("isint", B(TRUE)) = <<I(0)>>
+  /\ {Ap1("tag", x) : x \in MixedItems} = {<<I(1)>>, <<I(2)>>, <<I(3)>>, <<I(4)>>}
+  /\ Ap1("isbool", B(FALSE)) = <<B(TRUE)>> /\ Ap1("isbool", I(0)) = <<B(FALSE)>>
+LawsMixed == LawSortMixed /\ LawMixedKeys
+
 (* apply($f, [a, b, ..]) = $f(a, b, ..) *)
 LawApply ==
   Usable(acc) => \A f \in ByArity(Len(acc)) :
